@@ -121,6 +121,12 @@ func (s *Solver) ref(t *Term) string {
 		r = fmt.Sprintf("((_ zero_extend %d) %s)", t.I1, s.ref(t.Args[0]))
 	case OSext:
 		r = fmt.Sprintf("((_ sign_extend %d) %s)", t.I1, s.ref(t.Args[0]))
+	case OSelect:
+		if t.Args[0].Op == OSym && t.Args[1].IsConst() {
+			// inline: needs no definition (usable inside a kept scope)
+			return "(select " + s.ref(t.Args[0]) + " " + constStr(t.Args[1]) + ")"
+		}
+		fallthrough
 	default:
 		refs := make([]string, len(t.Args))
 		for i, a := range t.Args {
@@ -197,7 +203,7 @@ func (s *Solver) Check(keep bool, extra ...*Term) SatResult {
 	for {
 		line := s.readLine()
 		if s.Log != nil {
-			fmt.Fprintf(s.Log, "; -> %s\n", line)
+			fmt.Fprintf(s.Log, "; -> %s  (%.3fs)\n", line, time.Since(t0).Seconds())
 		}
 		if line == "sat" {
 			res = Sat
